@@ -159,15 +159,18 @@ func (v *Vue) Render(w io.Writer, filename string, data any) error {
 func (v *Vue) loadCachedWithFrontMatter(filename string) (map[string]any, []*html.Node, error) {
 	// Get current file modification time
 	var currentModTime time.Time
+	statOK := false
 	if v.templateFS != nil {
 		if info, err := fs.Stat(v.templateFS, filename); err == nil {
 			currentModTime = info.ModTime()
+			statOK = true
 		}
 	}
 
 	v.templateMu.RLock()
 	cached, ok := v.templateCache[filename]
-	if ok && (currentModTime.IsZero() || cached.modTime.Equal(currentModTime)) {
+	// a file that can no longer be stat-ed is a miss: the reload below reports the error
+	if ok && statOK && (currentModTime.IsZero() || cached.modTime.Equal(currentModTime)) {
 		// Cache hit and file hasn't changed (or we can't check mtime)
 		v.templateMu.RUnlock()
 		return cached.frontMatter, cached.dom, nil
